@@ -212,6 +212,17 @@ def _eval(
                 "Already in dds.eval() context. Nested eval contexts are not supported",
                 DDSErrorCode.EVAL_IN_EVAL,
             )
+        if path not in _eval_ctx.requested_paths:
+            # The analysis of the running evaluation has not seen this call. It follows accepted modules only.
+            fun_mod = getattr(fun, "__module__", None)
+            raise DDSException(
+                f"The call that keeps the path {path} (function {getattr(fun, '__qualname__', fun)} of the module "
+                f"'{fun_mod}') was reached while evaluating, but it was not found when the evaluation was analysed. "
+                f"The typical cause is that the module '{fun_mod}' has not been whitelisted for use by DDS: "
+                f"its code is not tracked and it cannot keep data inside an evaluation. Use the "
+                f"function 'dds.accept_module' to whitelist {fun_mod} or one of its parent packages.",
+                DDSErrorCode.MODULE_NOT_FOUND,
+            )
         key = None if path is None else _eval_ctx.requested_paths[path]
         t = _time()
         if key is not None and _store().has_blob(key):
